@@ -22,7 +22,12 @@ defect does not show up under four keys.
 .inf tolerance (the only place where the comparison is not bit-exact): make_inf prints tstart with 15 decimals
 ('05.15f': absolute error <= 5e-16, far below half an ulp of an MJD, 3.6e-12, so the nearest double is recovered: we
 allow 1 ulp), tsamp with 15 significant digits ('.15g': relative error <= 5e-15; we allow 1e-14) and DM with 12
-('.12g': relative error <= 5e-12; we allow 1e-11).  SIGPROC headers store doubles: exact equality is demanded."""
+('.12g': relative error <= 5e-12; we allow 1e-11).  SIGPROC headers store doubles: exact equality is demanded.
+
+At-scale search (`scale(R)`, see its docstring for the table of regimes): the same clauses on products of 2**16 .. 2**25 elements,
+many cwrite calls, gulps beyond 16384 / 65536 samples, thousands of channels.  Keys: scale-cwrite-{refused-own-type,width,nsamples,
+values,meta}, scale-cwrite-width-rescale, scale-to_file-*, scale-{tim,dat,spec,fft}-{nsamples,values,meta},
+scale-extract_chans-{width,nsamples,values}, scale-requantize-{width,nsamples,values}."""
 import os
 import re
 import shutil
@@ -600,3 +605,439 @@ def run(R: vlib.Run):
     finally:
         shutil.rmtree(d, ignore_errors=True)
     return R
+
+
+# ------------------------------------------------------------------------------------------------------------
+# at-scale search
+# ------------------------------------------------------------------------------------------------------------
+def _scale_own(seed, nbits, n):
+    """the at-scale sample stream of depth nbits: n values in the file's own sample type (uint8 / uint16 / float32), a pure function
+    of (seed, nbits, n).  Below 32 bits: uniform over the whole range of the depth (0 and the maximum included).  At 32 bits: uniform
+    random float32 BIT PATTERNS made finite (sign, subnormals, 1e-38 .. 3.4e38, -0.0), the first four are max, -max, the smallest
+    subnormal and -0.0"""
+    g = np.random.default_rng([int(seed), 404, int(nbits)])
+    if nbits < 32:
+        return g.integers(0, 1 << nbits, n, dtype=FILE_DT[nbits])
+    b = g.integers(0, 1 << 32, n, dtype=np.uint32)
+    nonfinite = (b & np.uint32(0x7F800000)) == np.uint32(0x7F800000)
+    b[nonfinite] &= np.uint32(0xFF7FFFFF)          # exponent 255 -> 254: a finite value next to the largest
+    b[:4] = np.array([0x7F7FFFFF, 0xFF7FFFFF, 0x00000001, 0x80000000], dtype=np.uint32)[:min(4, n)]
+    return b.view(np.float32)
+
+
+def _scale_as(own, dt, nbits):
+    """the same stream held in memory as dtype dt, every value representable at the depth AND in dt (so that it must read back
+    identically): below 32 bits the values themselves (uint8 holding a 16-bit file's samples: the low byte); at 32 bits float64 holds
+    the float32 values, the integer types hold integers derived from the bit patterns (int64: |v| < 2**24, exact in float32)"""
+    d = np.dtype(dt)
+    if d == np.dtype(FILE_DT[nbits]):
+        return own
+    if nbits < 32:
+        return (own & 0xFF).astype(d) if (nbits == 16 and d == np.uint8) else own.astype(d)
+    b = own.view(np.uint32)
+    if d == np.uint8:
+        return (b & np.uint32(0xFF)).astype(d)
+    if d == np.uint16:
+        return (b & np.uint32(0xFFFF)).astype(d)
+    if d == np.int64:
+        return b.astype(np.int64) % ((1 << 25) - 1) - ((1 << 24) - 1)
+    return own.astype(d)      # float64
+
+
+def _scale_pack(v, nbits):
+    """reference encoding of own-type samples as the bytes of a SIGPROC data section (written without the library's pack):
+    1 bit: first sample in the least significant bit; 2 and 4 bits: first sample in the most significant field"""
+    if nbits == 1:
+        return np.packbits(v, bitorder="little")
+    if nbits == 2:
+        q = v.reshape(-1, 4)
+        return ((q[:, 0] << 6) | (q[:, 1] << 4) | (q[:, 2] << 2) | q[:, 3]).astype(np.uint8)
+    if nbits == 4:
+        q = v.reshape(-1, 2)
+        return ((q[:, 0] << 4) | q[:, 1]).astype(np.uint8)
+    return np.ascontiguousarray(v, dtype={8: "<u1", 16: "<u2", 32: "<f4"}[nbits])
+
+
+def _scale_diff(got, want):
+    """small description of where two float32 arrays of the same size differ (bit comparison)"""
+    g, w = bits32(got).ravel(), bits32(want).ravel()
+    if g.size != w.size:
+        return {"got_size": int(g.size), "want_size": int(w.size)}
+    bad = np.flatnonzero(g != w)
+    if bad.size == 0:
+        return {}
+    i = int(bad[0])
+    return {"first_diff_flat_index": i, "n_diff": int(bad.size), "got_at": small(np.asarray(got, dtype=np.float32).ravel()[i:i + 4]),
+            "want_at": small(np.asarray(want, dtype=np.float32).ravel()[i:i + 4])}
+
+
+SCALE_META = [(6.4e-05, 60000.0, 0.0), (8.192e-05, 58849.000011574074, 56.7789), (0.001, 50000.125, 2999.999),
+              (1.0 / 30000.0, 69999.99999, 12.5)]
+
+
+def scale(R: vlib.Run):
+    """at-scale search (run when something no longer checks and no small failing input was found, and in the thorough tier).
+
+    regime                          sizes
+    prep_outfile+cwrite+FilReader   every depth, own sample type, ONE cwrite of 2**16, 2**18, 2**20, 2**22, 2**24 elements -/=/+ one 8-channel
+                                    sample, 2**25+8 at 1/2/4 bits (packed 2**22+1 .. 2**24+4 bytes); nchans 4096 and 70000; at >= 8 bits 1
+                                    channel with 2**16-1, 2**16+1, 2**20+1, 2**22+1, 2**24+1 samples; the four other in-memory dtypes at
+                                    2**16+8, 2**20+8, 2**22+8 (and 2**24+8 at >= 8 bits) elements; FileWriter(rescale=True) width at
+                                    2**20+8 elements; ~2000 cwrite calls of 1..197 samples (200000 samples) and a
+                                    big/small/big history at every depth; random values over the whole range of the depth (float32: the
+                                    whole finite range incl. max, subnormals, -0.0)
+    FilterbankBlock.to_file         (nchans, nsamps) = (1,65537) (64,1025) (64,16385) (4096,257) (70000,3) (8,2**19+1) (2,2**23+1);
+                                    every dtype at (64,16385) and (8,2**19+1); (64,70000) and (16,140000) blocks dedispersed in memory and written
+    .tim .dat/.inf                  65535, 65536, 65537, 2**18+1, and -/=/+ 1 around 2**20, 2**22, 2**24 samples; every dtype at 65537, 2**20+1
+    .spec .fft/.inf                 32768, 32769, 65535..65537, 2**17, 2**19+1, 2**20, 2**22+1 and -/=/+ 1 around 2**21, 2**23 complex bins (2 words each)
+    extract_chans                   70000..140000 samples, 1/2/4/8/16/32-bit inputs, gulps 16384 / 5000 / 4097 / 100 (700 blocks) /
+                                    65537 / 70001 / 1100000 (one 1.1e6-element cwrite), 300 channels extracted (two batches), files of
+                                    4096 and 70000 channels, a start/nsamps sub-range
+    requantize                      all 36 (depth in, depth out) pairs on 70000 samples x 16 channels with gulps 16384 (2**18 elements
+                                    per block) / 5000 / 70001 / 65537 / 100; 300000-sample gulps (4.8e6 elements per block) on 14 pairs;
+                                    4096 and 70000 channels
+    Reference: the written values as float32 (NumPy), bit comparison; file length against nsamps*nchans*nbits/8; the small-scope
+    oracle's metadata clauses and .inf tolerances.  Data are never stored in a case: `data` names the generator call that rebuilds them."""
+    warnings.filterwarnings("ignore")
+    from sigpyproc.block import FilterbankBlock
+    from sigpyproc.fourierseries import FourierSeries
+    from sigpyproc.readers import FilReader
+    from sigpyproc.timeseries import TimeSeries
+
+    seed = int(R.seed)
+    d = os.path.join(vlib.SCRATCH, f"c04s_{os.getpid()}")
+    shutil.rmtree(d, ignore_errors=True)
+    os.makedirs(d)
+    counter = [0]
+
+    def meta():
+        counter[0] += 1
+        return SCALE_META[counter[0] % len(SCALE_META)]
+
+    def exc(e):
+        return f"{type(e).__name__}: {str(e)[:160]}"
+
+    def rm(*paths):
+        for p in paths:
+            try:
+                os.remove(p)
+            except OSError:
+                pass
+
+    def reread_fil(name, path, want2d, nbits, case, metav=None):
+        """width, inferred count, values / shape / order, metadata of a written filterbank product.  want2d: (nsamps, nchans) float32"""
+        nsamps, nchans = want2d.shape
+        try:
+            hl = hdrlen_of(path)
+            datalen = os.path.getsize(path) - hl
+        except Exception as e:  # noqa: BLE001
+            R.fail(f"scale-{name}-values", f"the product's header cannot be parsed at scale ({exc(e)})", case); return False
+        if datalen * 8 != nsamps * nchans * nbits:
+            R.fail(f"scale-{name}-width", "at scale the data section is not nsamps*nchans*nbits bits long",
+                   dict(case, data_bytes=datalen, expected_bytes=nsamps * nchans * nbits // 8)); return False
+        R.tick(dict(case, step="FilReader.read_block"))
+        try:
+            r = FilReader(path)
+            ns = int(r.header.nsamples)
+            blk = r.read_block(0, ns)
+            got = blk.data
+        except Exception as e:  # noqa: BLE001
+            R.fail(f"scale-{name}-values", f"re-reading the product at scale raised {exc(e)}", case); return False
+        if ns != nsamps:
+            R.fail(f"scale-{name}-nsamples", "at scale the inferred sample count differs from the samples written", dict(case, inferred=ns)); return False
+        if r.header.nbits != nbits or got.shape != (nchans, nsamps) or not same_bits(got.T, want2d):
+            R.fail(f"scale-{name}-values", "at scale the values / shape / order read back differ from what was written",
+                   dict(case, got_shape=list(got.shape), header_nbits_read=int(r.header.nbits),
+                        **(_scale_diff(got.T, want2d) if got.shape == (nchans, nsamps) else {}))); return False
+        if metav is not None:
+            return check_meta(R, f"scale-{name}-meta", r.header, *metav, case)
+        return True
+
+    try:
+        # -------------------------------------------------------------------------------------------------
+        # 1. prep_outfile + cwrite (one call, many calls) + FilReader
+        # -------------------------------------------------------------------------------------------------
+        def fil_case(own, n_base, nbits, dt, nsamps, nchans, off, blocks, blocks_rule):
+            E = nsamps * nchans
+            vals = _scale_as(own[off:off + E], dt, nbits)
+            want = np.asarray(vals, dtype=np.float32).reshape(nsamps, nchans)
+            tsamp, tstart, dm = meta()
+            hdr_nbits = 8 if nbits != 8 else 32          # the header the writer is prepared from has another depth (overridden by nbits=)
+            path = os.path.join(d, "f.fil")
+            case = {"path": "prep_outfile+cwrite", "dtype": dt, "nbits": nbits, "nsamps": nsamps, "nchans": nchans, "elements": E,
+                    "cwrite_calls": len(blocks), "samples_per_call": blocks_rule, "header_nbits": hdr_nbits, "tsamp": tsamp, "tstart": tstart, "dm": dm,
+                    "data": f"props/c04.py: _scale_as(_scale_own(seed={seed}, nbits={nbits}, n={n_base})[{off}:{off + E}], '{dt}', {nbits})"}
+            R.case(("scale", "fil", nbits, dt, nsamps, nchans, len(blocks)), regime="scale")
+            R.tick(case)
+            try:
+                hdr = mk_header(path, nchans, hdr_nbits, nsamps, tsamp, tstart, dm)
+                w = hdr.prep_outfile(path, nbits=nbits)
+                try:
+                    p = 0
+                    for b in blocks:
+                        w.cwrite(vals[p * nchans:(p + b) * nchans]); p += b
+                finally:
+                    w.close()
+            except Exception as e:  # noqa: BLE001
+                if dt == FILE_DT[nbits]:
+                    R.fail("scale-cwrite-refused-own-type", f"at scale cwrite raised {exc(e)} for an array of the file's own sample type", case)
+                rm(path); return
+            reread_fil("cwrite", path, want, nbits, case, (tsamp, tstart, dm))
+            rm(path)
+
+        for nbits in DEPTHS:
+            own_dt = FILE_DT[nbits]
+            top = (1 << 25) + 8 if nbits < 8 else (1 << 24) + 8
+            n_base = top + 4096
+            own = _scale_own(seed, nbits, n_base)
+            shapes = []
+            for k in (16, 18, 20, 22):
+                s = (1 << k) // 8
+                shapes += [(s - 1, 8), (s, 8), (s + 1, 8)]
+            shapes += [((1 << 21) - 1, 8), (1 << 21, 8), ((1 << 21) + 1, 8), (257, 4096), (16, 70000)]
+            if nbits < 8:                       # packed length 2**22+1 / 2**23+2 / 2**24+4 bytes
+                shapes += [((1 << 22) + 1, 8)]
+            if nbits >= 8:
+                shapes += [(65535, 1), (65537, 1), ((1 << 20) + 1, 1), ((1 << 22) + 1, 1), ((1 << 24) + 1, 1)]
+            for i, (nsamps, nchans) in enumerate(shapes):
+                fil_case(own, n_base, nbits, own_dt, nsamps, nchans, (i * 8) % 4096, [nsamps], "all in one call")
+            for dt in DTYPES:
+                if dt == own_dt:
+                    continue
+                for nsamps in (8193, (1 << 17) + 1, (1 << 19) + 1) + (((1 << 21) + 1,) if nbits >= 8 else ()):
+                    fil_case(own, n_base, nbits, dt, nsamps, 8, 24, [nsamps], "all in one call")
+            # long histories: ~2000 calls of 1..197 samples; a big / small / big history (the file cursor after a large write)
+            N = 200000
+            blocks, i = [], 0
+            while sum(blocks) < N:
+                blocks.append(min(1 + (i * 7919) % 197, N - sum(blocks))); i += 1
+            fil_case(own, n_base, nbits, own_dt, N, 8, 0, blocks, "1 + (i*7919) % 197, the last one cut to end at 200000")
+            hist = [(1 << 17) + 1, 1, 3, 1 << 17, 5, 70000, 16384, 65536]
+            fil_case(own, n_base, nbits, own_dt, sum(hist), 8, 8, hist, hist)
+            del own
+
+        # rescale=True: only the width clause applies (the values are re-quantised on purpose); a refusal is allowed, as in run()
+        from sigpyproc.io.fileio import FileWriter
+        for nbits in DEPTHS:
+            for dt in ("float32", "float64"):
+                n = (1 << 20) + 8
+                arr = np.random.default_rng([seed, 404, 99]).standard_normal(n).astype(dt)
+                path = os.path.join(d, "rs.bin")
+                case = {"path": "FileWriter(rescale=True).cwrite", "dtype": dt, "nbits": nbits, "n": n,
+                        "data": f"numpy.random.default_rng([{seed}, 404, 99]).standard_normal({n}).astype('{dt}')"}
+                R.case(("scale", "rescale", dt, nbits, n), regime="scale")
+                R.tick(case)
+                try:
+                    with FileWriter(path, mode="w", nbits=nbits, rescale=True) as w:
+                        w.cwrite(arr)
+                except Exception:  # noqa: BLE001
+                    rm(path); continue
+                if os.path.getsize(path) * 8 != n * nbits:
+                    R.fail("scale-cwrite-width-rescale", "at scale rescaled data are written at a width other than the declared depth",
+                           dict(case, data_bytes=os.path.getsize(path), expected_bytes=n * nbits // 8))
+                rm(path)
+                del arr
+
+        # -------------------------------------------------------------------------------------------------
+        # 2. FilterbankBlock.to_file
+        # -------------------------------------------------------------------------------------------------
+        n32 = (1 << 24) + 4096
+        f32 = _scale_own(seed, 32, n32)
+
+        def block_case(dt, nchans, nsamps, off, dedisp=None):
+            E = nchans * nsamps
+            data = _scale_as(f32[off:off + E], dt, 32).reshape(nchans, nsamps)
+            tsamp, tstart, dm = meta()
+            path = os.path.join(d, "blk.fil")
+            case = {"path": "FilterbankBlock.to_file" if dedisp is None else "FilterbankBlock.dedisperse(dm).to_file", "dtype": dt,
+                    "nchans": nchans, "nsamps": nsamps, "elements": E, "tsamp": tsamp, "tstart": tstart, "dm": dm,
+                    "data": f"props/c04.py: _scale_as(_scale_own(seed={seed}, nbits=32, n={n32})[{off}:{off + E}], '{dt}', 32).reshape({nchans}, {nsamps})"}
+            if dedisp is not None:
+                case["applied_dm"] = dedisp
+            R.case(("scale", "to_file", dt, nchans, nsamps, dedisp), regime="scale")
+            R.tick(case)
+            try:
+                hdr = mk_header(os.path.join(d, "blk_in.fil"), nchans, 8, nsamps, tsamp, tstart, dm)
+                blk = FilterbankBlock(data, hdr, dm=dm)
+                if dedisp is not None:
+                    blk = blk.dedisperse(dedisp)
+                    want_dm = dedisp
+                else:
+                    want_dm = dm
+                held = np.array(blk.data, dtype=np.float32, copy=True)      # the samples as held in memory, (nchans, nsamps)
+                blk.to_file(path)
+                del blk
+            except Exception as e:  # noqa: BLE001
+                R.fail("scale-to_file-values", f"to_file at scale raised {exc(e)}", case); rm(path); return
+            if dedisp is None and not same_bits(held, np.asarray(data, dtype=np.float32)):
+                R.fail("scale-to_file-values", "the block does not hold the values it was constructed from", case); rm(path); return
+            reread_fil("to_file", path, held.T, 32, case, (tsamp, tstart, want_dm))
+            rm(path)
+
+        for i, (nchans, nsamps) in enumerate([(1, 65537), (64, 1025), (64, 16385), (4096, 257), (70000, 3), (8, (1 << 19) + 1), (2, (1 << 23) + 1)]):
+            block_case("float32", nchans, nsamps, 4 * i)
+        for dt in DTYPES:
+            if dt != "float32":
+                block_case(dt, 64, 16385, 40)
+                block_case(dt, 8, (1 << 19) + 1, 48)
+        block_case("float32", 64, 70000, 0, dedisp=123.456)
+        block_case("int64", 16, 140000, 64, dedisp=37.5)
+
+        # -------------------------------------------------------------------------------------------------
+        # 3. .tim, .dat/.inf, .spec, .fft/.inf
+        # -------------------------------------------------------------------------------------------------
+        def series_check(name, back, n_want, counts_ok, wantf, metav, case, inf):
+            got = back.data
+            gotf = np.ascontiguousarray(got).view(np.float32) if got.dtype == np.complex64 else got
+            if got.size != n_want or back.header.nsamples not in counts_ok:
+                R.fail(f"scale-{name}-nsamples", f"at scale the sample count read from the .{name} differs from the samples written",
+                       dict(case, got=[int(back.header.nsamples), int(got.size)])); return
+            if not same_bits(gotf, wantf):
+                R.fail(f"scale-{name}-values", f"at scale the .{name} values read back differ", dict(case, **_scale_diff(gotf, wantf))); return
+            check_meta(R, f"scale-{name}-meta", back.header, *metav, case, inf=inf)
+
+        def tseries_case(dt, n, off):
+            x = _scale_as(f32[off:off + n], dt, 32)
+            want = np.asarray(x, dtype=np.float32)
+            tsamp, tstart, dm = meta()
+            base = os.path.join(d, "ts")
+            data = f"props/c04.py: _scale_as(_scale_own(seed={seed}, nbits=32, n={n32})[{off}:{off + n}], '{dt}', 32)"
+            for name, wr, rd, inf in (("tim", lambda t: t.to_tim(base + ".tim"), TimeSeries.from_tim, False),
+                                      ("dat", lambda t: t.to_dat(base), TimeSeries.from_dat, True)):
+                case = {"path": f"TimeSeries.to_{name}/from_{name}", "dtype": dt, "n": n, "tsamp": tsamp, "tstart": tstart, "dm": dm, "data": data}
+                R.case(("scale", name, dt, n), regime="scale")
+                R.tick(case)
+                try:
+                    hdr = mk_header(base + "_src.tim", 1, 8, n, tsamp, tstart, dm, data_type="time series")
+                    ts = TimeSeries(x, hdr)
+                    f = wr(ts)
+                    del ts
+                    R.tick(dict(case, step="read back"))
+                    back = rd(f)
+                except Exception as e:  # noqa: BLE001
+                    R.fail(f"scale-{name}-values", f".{name} write / read at scale raised {exc(e)}", case); continue
+                series_check(name, back, n, (n,), want, (tsamp, tstart, dm), case, inf)
+                del back
+            rm(base + ".tim", base + ".dat", base + ".inf")
+
+        def fseries_case(dt, n, off):
+            if dt == "float32":
+                z = np.ascontiguousarray(f32[off:off + 2 * n]).view(np.complex64)
+            else:
+                re_, im_ = _scale_as(f32[off:off + n], dt, 32), _scale_as(f32[off + n:off + 2 * n], dt, 32)
+                z = np.empty(n, dtype=np.complex64)
+                z.real = np.asarray(re_, dtype=np.float32); z.imag = np.asarray(im_, dtype=np.float32)
+            wantf = z.view(np.float32).copy()
+            tsamp, tstart, dm = meta()
+            nt = 2 * (n - 1)
+            base = os.path.join(d, "fs")
+            data = (f"props/c04.py: complex64 bins (re, im) from _scale_own(seed={seed}, nbits=32, n={n32})[{off}:{off + 2 * n}]"
+                    + ("" if dt == "float32" else f", first half as real and second half as imaginary parts through _scale_as(.., '{dt}', 32)"))
+            for name, wr, rd, inf, counts in (("spec", lambda t: t.to_spec(base + ".spec"), FourierSeries.from_spec, False, (2 * n, n)),
+                                              ("fft", lambda t: t.to_fft(base), FourierSeries.from_fft, True, (nt, 2 * n, n))):
+                case = {"path": f"FourierSeries.to_{name}/from_{name}", "dtype": dt, "n_bins": n, "tsamp": tsamp, "tstart": tstart, "dm": dm, "data": data}
+                R.case(("scale", name, dt, n), regime="scale")
+                R.tick(case)
+                try:
+                    fh = mk_header(base + "_src.spec", 1, 8, nt, tsamp, tstart, dm, data_type="time series")
+                    fs = FourierSeries(z, fh)
+                    f = wr(fs)
+                    del fs
+                    R.tick(dict(case, step="read back"))
+                    back = rd(f)
+                except Exception as e:  # noqa: BLE001
+                    R.fail(f"scale-{name}-values", f".{name} write / read at scale raised {exc(e)}", case); continue
+                series_check(name, back, n, counts, wantf, (tsamp, tstart, dm), case, inf)
+                del back
+            rm(base + ".spec", base + ".fft", base + ".inf")
+
+        for i, n in enumerate([65535, 65536, 65537, (1 << 18) + 1, (1 << 20) - 1, 1 << 20, (1 << 20) + 1, (1 << 22) - 1, 1 << 22, (1 << 22) + 1,
+                               (1 << 24) - 1, 1 << 24, (1 << 24) + 1]):
+            tseries_case("float32", n, 4 * i)
+        for i, n in enumerate([32768, 32769, 65535, 65536, 65537, 1 << 17, (1 << 19) + 1, 1 << 20, (1 << 21) - 1, 1 << 21, (1 << 21) + 1, (1 << 22) + 1,
+                               (1 << 23) - 1, 1 << 23, (1 << 23) + 1]):
+            fseries_case("float32", n, 4 * i)
+        for dt in DTYPES:
+            if dt != "float32":
+                for n in (65537, (1 << 20) + 1):
+                    tseries_case(dt, n, 100)
+                    fseries_case(dt, n, 200)
+        del f32
+
+        # -------------------------------------------------------------------------------------------------
+        # 4. extract_chans and requantize: many gulps, gulps of more than 65536 samples, blocks of millions of elements
+        # -------------------------------------------------------------------------------------------------
+        def source(path, nb_in, nsamps, nchans, hi=None, off=0):
+            """a source file written WITHOUT the library's pack / cwrite; returns the (nsamps, nchans) array it holds (own sample type)"""
+            n_b = nsamps * nchans + off
+            v = _scale_own(seed + 1, nb_in, n_b)[off:]
+            if hi is not None:                    # integer values below hi (representable at the output depth as well)
+                if nb_in == 32:
+                    v = (v.view(np.uint32) % np.uint32(hi)).astype(np.float32)
+                elif hi <= int(np.iinfo(v.dtype).max):
+                    v = v % v.dtype.type(hi)
+            tsamp, tstart, dm = meta()
+            hdr = mk_header(path, nchans, nb_in, nsamps, tsamp, tstart, dm)
+            w = hdr.prep_outfile(path)
+            w.write(_scale_pack(v, nb_in).tobytes())
+            w.close()
+            return v.reshape(nsamps, nchans), f"props/c04.py: scale().source: _scale_own(seed={seed + 1}, nbits={nb_in}, n={n_b})[{off}:]" + (f" % {hi}" if hi else "")
+
+        src = os.path.join(d, "src.fil")
+        ec_table = [  # (nb_in, nchans, N, chans, gulp, start, nsamps)
+            (8, 16, 70000, [0, 7, 15], 16384, 0, None), (8, 16, 70000, [3], 5000, 0, None), (16, 8, 70001, [1, 6], 70001, 0, None),
+            (32, 4, 140000, [2], 65537, 0, None), (1, 64, 70000, [0, 63], 16384, 0, None), (2, 32, 40000, [5], 4097, 0, None),
+            (4, 16, 40000, [9], 16384, 0, None), (8, 4, 70000, [1], 100, 0, None), (8, 300, 20000, list(range(300)), 16384, 0, None),
+            (16, 8, 100000, [4], 16384, 1234, 90000), (8, 4096, 2000, [0, 4095], 16384, 0, None), (8, 70000, 40, [69999], 16384, 0, None),
+            (8, 2, 1100000, [1], 1100000, 0, None), (32, 2, 1100000, [0], 1100000, 0, None),
+        ]
+        for nb_in, nchans, N, chans, gulp, start, nsel in ec_table:
+            data, desc = source(src, nb_in, N, nchans)
+            n_out = N - start if nsel is None else nsel
+            case = {"path": "extract_chans", "nbits_in": nb_in, "nchans": nchans, "nsamps_in_file": N, "chans": chans if len(chans) <= 8 else f"all {len(chans)}",
+                    "gulp": gulp, "start": start, "nsamps": nsel, "data": desc}
+            R.case(("scale", "extract_chans", nb_in, nchans, N, len(chans), gulp, start), regime="scale")
+            R.tick(case)
+            names = []
+            try:
+                names = FilReader(src).extract_chans(chans=chans, outfile_base=os.path.join(d, "ec"), gulp=gulp, start=start, nsamps=nsel, quiet=True)
+                for chan, nm in zip(chans, names):
+                    want = data[start:start + n_out, chan].astype(np.float32)
+                    c = dict(case, chan=chan)
+                    hl = hdrlen_of(nm)
+                    if (os.path.getsize(nm) - hl) * 8 != n_out * 32:
+                        R.fail("scale-extract_chans-width", "at scale a channel time series is not nsamps*32 bits long",
+                               dict(c, data_bytes=os.path.getsize(nm) - hl, expected_bytes=n_out * 4)); break
+                    back = TimeSeries.from_tim(nm)
+                    if back.header.nsamples != n_out or back.data.size != n_out:
+                        R.fail("scale-extract_chans-nsamples", "at scale the inferred sample count differs", dict(c, inferred=int(back.header.nsamples))); break
+                    if not same_bits(back.data, want):
+                        R.fail("scale-extract_chans-values", "at scale the channel values differ", dict(c, **_scale_diff(back.data, want))); break
+            except Exception as e:  # noqa: BLE001
+                R.fail("scale-extract_chans-values", f"extract_chans / re-read at scale raised {exc(e)}", case)
+            rm(src, *names)
+            del data
+
+        gulps = [16384, 5000, 70001, 16384, 100, 65537]
+        rq_table = [(a, b, 16, 70000, gulps[(i * 6 + j) % len(gulps)]) for i, a in enumerate(DEPTHS) for j, b in enumerate(DEPTHS)]
+        rq_table += [(a, b, 16, 300000, 300000) for a, b in ((8, 1), (8, 2), (8, 4), (8, 8), (8, 16), (8, 32), (1, 8), (2, 8), (4, 8), (16, 8),
+                                                                 (32, 8), (1, 1), (2, 4), (16, 32))]
+        rq_table += [(8, 4, 4096, 20000, 16384), (8, 16, 70000, 40, 16384), (1, 8, 4096, 3000, 1000)]
+        out = os.path.join(d, "rq.fil")
+        for nb_in, nb_out, nchans, N, gulp in rq_table:
+            hi = None if nb_in == nb_out else 1 << min(nb_in, nb_out, 8)
+            data, desc = source(src, nb_in, N, nchans, hi=hi)
+            case = {"path": "requantize", "nbits_in": nb_in, "nbits_out": nb_out, "nchans": nchans, "nsamps": N, "gulp": gulp, "data": desc}
+            R.case(("scale", "requantize", nb_in, nb_out, nchans, N, gulp), regime="scale")
+            R.tick(case)
+            try:
+                FilReader(src).requantize(nb_out, outfile_name=out, gulp=gulp, quiet=True)
+            except Exception as e:  # noqa: BLE001
+                if FILE_DT[nb_in] == FILE_DT[nb_out]:       # blocks already have the output's sample type: no refusal allowed
+                    R.fail("scale-requantize-values", f"requantize at scale raised {exc(e)} although the blocks have the output file's sample type", case)
+                rm(src, out); del data; continue
+            reread_fil("requantize", out, np.asarray(data, dtype=np.float32), nb_out, case)
+            rm(src, out)
+            del data
+    finally:
+        shutil.rmtree(d, ignore_errors=True)
